@@ -85,6 +85,13 @@ def simOp (net : Net) (toks : List String) : Option (Net × String) :=
     pure (net.upd n (fun nd => { nd with fingers := nd.fingers.set (k-1) v.toNat? }), "ok")
   | ["setsuccs", n, l] => (nat n).map fun n =>
     (net.upd n (fun nd => { nd with succs := if l == "-" then [] else (l.splitOn ",").filterMap (·.toNat?) }), "ok")
+  | ["reqleave", s] => (nat s).map fun s => let (net', e) := requestToLeave net s; (net', errStr e)
+  | ["execleave", l] => (nat l).map fun l =>
+    let (net', r) := executeLeave net l
+    (net', match r with
+      | .ok none => "ok:alone"
+      | .ok (some (p, s)) => s!"ok:{p}:{s}"
+      | .error e => "err:" ++ e.name)
   | ["leave", l] => (nat l).map fun l => let (net', e) := leave net l; (net', errStr e)
   | ["stabilize", n] => (nat n).map fun n => (stabilize net n, "ok")
   | ["stabilizex", n] => (nat n).map fun n => (stabilizeNoNotify net n, "ok")
